@@ -3,10 +3,10 @@ from .common import *
 ID = "C10"
 _M = "tinyflux.measurement.Measurement."
 FUNCTIONS = [_M + f for f in ("name", "count", "contains", "get", "search", "select", "remove", "remove_all", "update", "update_all", "insert", "insert_multiple", "get_tag_keys", "get_tag_values", "get_field_keys", "get_field_values", "get_timestamps", "__iter__", "__len__", "all")] + \
-    [TF + f for f in ("count", "contains", "remove", "drop_measurement", "insert", "insert_multiple", "update", "update_all", "get_tag_keys", "get_tag_values", "get_field_keys", "get_field_values", "get_timestamps")]
+    [TF + f for f in ("count", "contains", "get", "search", "select", "remove", "drop_measurement", "insert", "insert_multiple", "update", "update_all", "get_tag_keys", "get_tag_values", "get_field_keys", "get_field_values", "get_timestamps")]
 ASSUMED = []
 STANDIN = "standins/dbdiff.py"
-TRUSTED = TRUSTED_CORE + [STORAGE_ASSUMED, QUERY_ASSUMED, "callee contracts of get/search/select are proved under C01; __iter__/__len__/all compare the measurement with the name directly (no truthiness test), so they are exact also for the name ''"]
+TRUSTED = TRUSTED_CORE + [STORAGE_ASSUMED, QUERY_ASSUMED, " __iter__/__len__/all compare the measurement with the name directly (no truthiness test), so they are exact also for the name ''"]
 ASSUMPTIONS = [A_ALIAS, "the restriction is `if measurement and ...` in the code: the name '' is treated like None (KF-19, recorded finding)"]
 # "any read leaves the index valid" is C06's clause (known finding KF-20 for len()/iteration): decided there, not here
 OUT_OF_SCOPE = [r"index_valid_after_read_when_auto"]
